@@ -2,7 +2,7 @@
 /* tables not yet implemented are empty */
 
 
-const VhOp vh_float_ops[] = {{NULL, NULL}};
+
 const VhOp vh_adaptive_ops[] = {{NULL, NULL}};
 const VhOp vh_mem_ops[] = {{NULL, NULL}};
 
